@@ -3,7 +3,7 @@
    `reachable c s` = s is the state after SOME event list accepted by the parallel_safe transition system of
    configuration c (size, instances, argument entries, failing subset): all interleavings of the main thread and
    the member threads, with no bound on anything. *)
-From CF Require Import Common.Bytes C19.Model C19.Proofs C19.Proofs_b.
+From CF Require Import Common.Bytes C19.Model C19.Proofs C19.Proofs_b C19.Proofs_c.
 From Coq Require Import Permutation.
 Open Scope nat_scope.
 
@@ -85,3 +85,14 @@ Theorem C19_double_open_refused : forall c r,
   open_links c true r = (Raised EAlreadyOpen, true, []) /\ open_links_runs_parallel true = false.
 Proof. exact double_open_refused. Qed.
 Print Assumptions C19_double_open_refused.
+
+(* termination: no accepted event list is longer than 5n+1, and a run that cannot be extended has the result
+   (so, with C19_no_deadlock, parallel_safe comes back under every schedule) *)
+Theorem C19_runs_bounded : forall c evs s, run c init evs = Some s -> List.length evs <= 5 * n c + 1.
+Proof. exact runs_bounded. Qed.
+Print Assumptions C19_runs_bounded.
+
+Theorem C19_maximal_run_finished : forall c s, reachable c s -> total_args c ->
+  (forall e, step c s e = None) -> exists r, result s = Some r.
+Proof. exact maximal_run_finished. Qed.
+Print Assumptions C19_maximal_run_finished.
